@@ -234,6 +234,10 @@ def run(prog, rep):
             if a is None or cv(a) == 0 or cv(c["args"][ai]) == 0 or root_var(a) is None:
                 continue            # no address requested
             nab += 1
+            if a["k"] == "complit" and (a.get("e") or {}).get("items"):
+                a = strip_casts(a["e"]["items"][0])        # glibc's transparent-union argument
+            if a is not None and a["k"] == "ref" and a.get("decl") == "local":
+                a = rf.resolve(a) or a          # `struct sockaddr *native = (struct sockaddr *) &address;`
             bv = root_var(a)
             decl = [n for (b2, i2, n) in rf.nodes(elsewhere=True) if n["k"] == "decl" and n["name"] == bv]
             bsz = None
